@@ -203,6 +203,13 @@ struct GuardBuf
         return p;
     }
     unsigned char* end() const { return base + pages * page; }
+    // every byte in front of a placed image still has the fill pattern
+    bool canary_ok(const unsigned char* p) const
+    {
+        for(const unsigned char* q = base; q < p; q++)
+            if(*q != 0xEE) return false;
+        return true;
+    }
 };
 
 // ------------------------------------------------------------- fault capture
